@@ -39,7 +39,7 @@ def random_script(rng, level, size, skip, mx, n):
     pending = {s: [] for s in ssrcs}
     for _ in range(n):
         r = rng.random()
-        s = rng.choice(ssrcs[:2]) if rng.random() < 0.9 else 3
+        s = rng.choice(ssrcs[:2]) if rng.random() < 0.9 else ssrcs[2]
         if r < 0.70:
             pos[s] += 1
             q = rng.random()
@@ -88,6 +88,8 @@ def random_script(rng, level, size, skip, mx, n):
     if level == "icpt" and rng.random() < 0.5:          # the RTCP writer refuses the writes of some ticks
         steps = [dict(st, wfail=True) if st["a"] == "tick" and rng.random() < 0.2 else st for st in steps]
     sc = {"level": level, "size": size, "skip": skip, "max": mx, "steps": steps}
+    if level == "icpt":
+        sc["rev"] = rng.random() < 0.5                 # the options in the opposite order: the same configuration
     if level == "icpt" and rng.random() < 0.3:          # GeneratorStreamsFilter replaces the default feedback-list test
         sc["filt"] = rng.choice(["all", "odd", "none"])
     return sc
@@ -173,6 +175,12 @@ def run(ctx):
     for size, n in big:
         rs.append(random_script(rng, "log", size, rng.choice([0, 2]), 0, n))
         rs.append(random_script(rng, "icpt", size, rng.choice([0, 2]), rng.choice([0, 2]), n))
+    # windows larger than the default with MORE than the default window skipped, the options in either order
+    for size, skip in ((1024, 600), (2048, 1500), (1024, 1023)) if ctx.quick else ((1024, 600), (2048, 1500), (1024, 1023), (4096, 513), (8192, 8000)):
+        for rev in (False, True):
+            sc = random_script(rng, "icpt", size, skip, rng.choice([0, 2]), 700)
+            sc["rev"] = rev
+            rs.append(sc)
     run_batch(ctx, [vlib.remap_ids(sc, rng.choice(vlib.SSRC_TABLES)) for sc in rs], "T-random")
     # (T) a whole sequence-number cycle without loss between two losses of the same wire number
     run_batch(ctx, [cycle_script(rng, "icpt", 64, rng.choice([1, 2]))] + ([] if ctx.quick else [cycle_script(rng, "icpt", 512, 3)]),
